@@ -6,7 +6,8 @@ non-PASS statuses live in `__main__.py` and are checked by the harness, not here
 `flagged`: if the run raised no flag (`bounded_loops` empty, no `--depth` warning, model fuel not exhausted) and `I`
 satisfies no end state that is an error report or the tagged halt, then the concrete outcome of `I` IS reported by an
 end state whose path `I` satisfies: a clean result means every terminating input was explored to its end.
-`flagged_calls`: the same for the frame-stack machine with message calls (`runC`).
+`flagged_calls`: the same for the frame-stack machine with message calls (`runC`); `flagged_calls_create` with CREATE,
+`flagged_calls_hsto` with storage cells at mapping / dynamic-array locations followed.
 `loop_bound_flag`: whenever `jumpi` does not follow a branch whose check was not `unsat`, it records its jump id.
 `concrete_loops_uncut`: a JUMPI whose condition is a literal never reaches `jumpi`: no counter moves, nothing recorded;
 `must_uncut`: a condition the oracle classifies `must_true` / `must_false` is followed and never cut nor counted, for
